@@ -24,7 +24,9 @@ def braid_suite(ctx, vh):
                               "facts_N3": len(facts.replays), "quiet_N4": len(quiet.replays), "mergetag0_N3": len(m0.replays)}
     if not cases or not m0.replays:
         raise verif.ToolError("MC_Braid emitted no cases")
-    out += ctx.run_engine(vh, "braid", cases, opts={"twin": 1, "index": 1}, tag="braid")
+    # faults: for one multi-head case in four, a read fault at the k-th storage fetch of the commit
+    # must leave the committed state untouched (or the commit succeeds completely)
+    out += ctx.run_engine(vh, "braid", cases, opts={"twin": 1, "index": 1, "faults": 1, "faults_every": 4}, tag="braid")
     out += ctx.run_engine(vh, "braid", m0.replays, opts={"twin": 1, "index": 1, "merge_tag": 0}, tag="braid-m0")
     # STRETCH: chains of up to 14 commands cross MIN_SKIP_GAP (10) so skip lists are built
     sub = verif.sample(ctx.rng, n4.replays, 700 if not ctx.thorough else 3000)
@@ -40,7 +42,7 @@ def braid_suite(ctx, vh):
     if ctx.thorough:
         ladders += [{"rungs": r, "side": s, "side_mode": m} for r in (769, 1025, 1500, 2500) for s in (2, 3, 40) for m in (0, 1, 2)]
         ladders += [{"fan": f} for f in (513, 1100)]
-    out += ctx.run_engine(vh, "braid", ladders, tag="ladder", timeout=1800)
+    out += ctx.run_engine(vh, "braid", ladders, opts={"faults": 1}, tag="ladder", timeout=1800)
     ctx.cov["ladder_cases"] = ladders
     if ctx.thorough:
         n5 = ctx.tlc("MC_Braid", "MC_Braid_N5.cfg", timeout=3000, cache=True, subst=_salt(ctx))
